@@ -52,6 +52,9 @@ Proofs/RespFacts.vos Proofs/RespFacts.vok Proofs/RespFacts.required_vos: Proofs/
 Proofs/SkipListFacts.vo Proofs/SkipListFacts.glob Proofs/SkipListFacts.v.beautified Proofs/SkipListFacts.required_vo: Proofs/SkipListFacts.v Base/Bytes.vo Model/Resp.vo Model/Types.vo Model/SkipList.vo Spec/ZSet.vo Proofs/BytesFacts.vo
 Proofs/SkipListFacts.vio: Proofs/SkipListFacts.v Base/Bytes.vio Model/Resp.vio Model/Types.vio Model/SkipList.vio Spec/ZSet.vio Proofs/BytesFacts.vio
 Proofs/SkipListFacts.vos Proofs/SkipListFacts.vok Proofs/SkipListFacts.required_vos: Proofs/SkipListFacts.v Base/Bytes.vos Model/Resp.vos Model/Types.vos Model/SkipList.vos Spec/ZSet.vos Proofs/BytesFacts.vos
+Proofs/ZSetsFacts.vo Proofs/ZSetsFacts.glob Proofs/ZSetsFacts.v.beautified Proofs/ZSetsFacts.required_vo: Proofs/ZSetsFacts.v Base/Bytes.vo Model/Resp.vo Model/Types.vo Model/Strings.vo Model/SkipList.vo Model/ZSets.vo Spec/ZSet.vo Proofs/BytesFacts.vo Proofs/SkipListFacts.vo
+Proofs/ZSetsFacts.vio: Proofs/ZSetsFacts.v Base/Bytes.vio Model/Resp.vio Model/Types.vio Model/Strings.vio Model/SkipList.vio Model/ZSets.vio Spec/ZSet.vio Proofs/BytesFacts.vio Proofs/SkipListFacts.vio
+Proofs/ZSetsFacts.vos Proofs/ZSetsFacts.vok Proofs/ZSetsFacts.required_vos: Proofs/ZSetsFacts.v Base/Bytes.vos Model/Resp.vos Model/Types.vos Model/Strings.vos Model/SkipList.vos Model/ZSets.vos Spec/ZSet.vos Proofs/BytesFacts.vos Proofs/SkipListFacts.vos
 Props/C20.vo Props/C20.glob Props/C20.v.beautified Props/C20.required_vo: Props/C20.v Base/Bytes.vo Model/Resp.vo Proofs/BytesFacts.vo Proofs/RespFacts.vo
 Props/C20.vio: Props/C20.v Base/Bytes.vio Model/Resp.vio Proofs/BytesFacts.vio Proofs/RespFacts.vio
 Props/C20.vos Props/C20.vok Props/C20.required_vos: Props/C20.v Base/Bytes.vos Model/Resp.vos Proofs/BytesFacts.vos Proofs/RespFacts.vos
